@@ -5,9 +5,9 @@ the Lean modules and generators of every property."""
 # unit -> driver module (lean/CxVerif/Driver/<d>.lean, `ops`), harness module (harness/src/<h>.rs),
 #         gens module (tools/gens/<g>.py), props: property -> list of Lean Props modules
 UNITS = {
-    "ct": {"driver": "C18", "harness": "ops_ct", "gens": None, "props": {"C18": ["CxVerif.Props.C18"]}},
+    "ct": {"driver": "C18", "harness": "ops_ct", "gens": None, "props": {"C18": ["CxVerif.Props.C18", "CxVerif.Props.C18KernelTie"]}},
     "ktie": {"driver": "KTie", "harness": "ops_ktie", "gens": "ktie", "props": {}},
-    "b32": {"driver": "B32", "harness": "ops_b32", "gens": "b32", "props": {"C17": ["CxVerif.Props.C17.B32", "CxVerif.Props.C17.Sc32"]}},
+    "b32": {"driver": "B32", "harness": "ops_b32", "gens": "b32", "props": {"C17": ["CxVerif.Props.C17.B32", "CxVerif.Props.C17.Sc32", "CxVerif.Props.C17.KernelTieB32"]}},
     "simd": {"driver": "Simd", "harness": "ops_simd", "gens": "simd",
              "props": {"C16": ["CxVerif.Props.C16.Sha256", "CxVerif.Props.C16.Blake2"]}},
     # translator tie of the hash compression cores (tools/ktx_words.py -> Extracted/Kernels*.lean, tie theorems by rfl / kernel_rfl)
@@ -16,6 +16,9 @@ UNITS = {
         "C02": ["CxVerif.Props.C01.KernelTieSha256", "CxVerif.Props.C01.KernelTieSha512", "CxVerif.Props.C01.KernelTieSha1", "CxVerif.Props.C01.KernelTieRipemd160", "CxVerif.Props.C01.KernelTieKeccak", "CxVerif.Props.C01.KernelTieBlake2"],
         "C08": ["CxVerif.Props.C01.KernelTieSha256", "CxVerif.Props.C01.KernelTieSha512", "CxVerif.Props.C01.KernelTieSha1", "CxVerif.Props.C01.KernelTieRipemd160", "CxVerif.Props.C01.KernelTieKeccak", "CxVerif.Props.C01.KernelTieBlake2"],
         "C16": ["CxVerif.Props.C01.KernelTieSha256", "CxVerif.Props.C01.KernelTieBlake2"]}},
+    # translator tie of the stateful glue (tools/ktx_glue_*.py -> Extracted/Glue*.lean; tie theorems proved, not only rfl)
+    "gluemac": {"driver": None, "harness": None, "gens": None, "props": {
+        p: ["CxVerif.Props.C05.GlueTieMac"] for p in ("C05", "C06", "C07", "C08", "C09", "C10")}},
     "hashlen": {"driver": "HashLen", "harness": "ops_hashlen", "gens": "hashlen",
                 "props": {"C01": ["CxVerif.Props.C20.HashLen"], "C20": ["CxVerif.Props.C20.HashLen"]}},
     "long": {"driver": "Long", "harness": "ops_long", "gens": "long", "props": {}},
@@ -25,7 +28,7 @@ UNITS = {
     "fe64": {"driver": "Fe64", "harness": "ops_fe64", "gens": "fe64",
              "props": {"C12": ["CxVerif.Props.C12.X25519", "CxVerif.Props.C12.Symmetry", "CxVerif.Props.C12.Final"], "C15": ["CxVerif.Props.C15.Fe64", "CxVerif.Props.C15.KernelTieFe64"]}},
     "poly1305": {"driver": "Poly1305", "harness": "ops_poly1305", "gens": "poly1305",
-                 "props": {"C05": ["CxVerif.Props.C05.Poly1305", "CxVerif.Props.C05.KernelTie"], "C09": ["CxVerif.Props.C09.Poly1305"]}},
+                 "props": {"C05": ["CxVerif.Props.C05.Poly1305", "CxVerif.Props.C05.KernelTie", "CxVerif.Props.C05.KernelTieNew"], "C09": ["CxVerif.Props.C09.Poly1305"]}},
     "scalar64": {"driver": "Scalar64", "harness": "ops_scalar64", "gens": "scalar64", "props": {"C15": ["CxVerif.Props.C15.Scalar64", "CxVerif.Props.C15.KernelTieScalar64"]}},
     "sha2": {"driver": "Sha2", "harness": "ops_sha2", "gens": "sha2",
              "props": {"C01": ["CxVerif.Props.C01.Sha2"], "C02": ["CxVerif.Props.C02.Sha2"]}},
@@ -34,10 +37,10 @@ UNITS = {
     "sha3": {"driver": "Sha3", "harness": "ops_sha3", "gens": "sha3",
              "props": {"C01": ["CxVerif.Props.C01.Sha3"], "C02": ["CxVerif.Props.C02.Sha3"]}},
     "stream": {"driver": "Stream", "harness": "ops_stream", "gens": "stream",
-               "props": {"C03": ["CxVerif.Props.C03.Stream"], "C04": ["CxVerif.Props.C04.Stream"], "C16": ["CxVerif.Props.C16.ChaCha"]}},
+               "props": {"C03": ["CxVerif.Props.C03.Stream", "CxVerif.Props.C03.KernelTie"], "C04": ["CxVerif.Props.C04.Stream"], "C16": ["CxVerif.Props.C16.ChaCha", "CxVerif.Props.C16.KernelTieChaCha"]}},
     "ed25519": {"driver": "Ed25519", "harness": "ops_ed25519", "gens": "ed25519",
                 "props": {"C13": ["CxVerif.Props.C13.Ed25519", "CxVerif.Props.C13.Final"], "C14": ["CxVerif.Props.C14.Ed25519", "CxVerif.Props.C14.VerifyFull", "CxVerif.Props.C14.Final"], "C15": ["CxVerif.Props.C15.Ge", "CxVerif.Props.C15.GroupLaw", "CxVerif.Props.C15.Prime", "CxVerif.Props.C15.Final"]}},
-    "argon2": {"driver": "Argon2", "harness": "ops_argon2", "gens": "argon2", "props": {"C11": ["CxVerif.Props.C11.Argon2", "CxVerif.Props.C11.Argon2Full"]}},
+    "argon2": {"driver": "Argon2", "harness": "ops_argon2", "gens": "argon2", "props": {"C11": ["CxVerif.Props.C11.Argon2", "CxVerif.Props.C11.Argon2Full", "CxVerif.Props.C11.KernelTie"]}},
     "aead": {"driver": "Aead", "harness": "ops_aead", "gens": "aead",
              "props": {"C06": ["CxVerif.Props.C06.Aead"], "C07": ["CxVerif.Props.C07.Aead"], "C20": ["CxVerif.Props.C20.Aead"]}},
     "sha1ripemd": {"driver": "Sha1Ripemd", "harness": "ops_sha1ripemd", "gens": "sha1ripemd",
